@@ -280,6 +280,13 @@ impl TypeParams {
         quote!(<#(#bounds),*>)
     }
 
+    /// Replaces all named lifetimes with 's when source lifetime is implicit
+    pub fn fix_named_lifetimes_implicit(&self, ty: &mut Type) {
+        if matches!(&self.source_lifetime, SourceLifetime::Implicit) {
+            replace_named_lifetimes(ty);
+        }
+    }
+
     /// Replaces all lifetimes with 's when source lifetime is implicit for backwards compatibility
     pub fn fix_source_lifetime_implicit(&self, ty: &mut Type) {
         if matches!(&self.source_lifetime, SourceLifetime::Implicit) {
@@ -290,6 +297,16 @@ impl TypeParams {
 
 pub fn replace_lifetimes(ty: &mut Type) {
     traverse_type(ty, &mut replace_lifetime)
+}
+
+/// Like [replace_lifetimes], but references without a lifetime stay as they are: in the
+/// extras and error types they only occur where elision is allowed (`fn(&str) -> usize`).
+pub fn replace_named_lifetimes(ty: &mut Type) {
+    traverse_type(ty, &mut |ty| {
+        if !matches!(ty, Type::Reference(r) if r.lifetime.is_none()) {
+            replace_lifetime(ty)
+        }
+    })
 }
 
 pub fn replace_lifetime(ty: &mut Type) {
